@@ -647,6 +647,28 @@ func TakeAborted() bool {
 	return a
 }
 
+// Unowned is called right before every `go` statement of library code. A
+// goroutine spawned while a simulation is active runs outside the scheduler's
+// control: the run is then not a simulation any more and its verdict is not
+// trusted (the harness stops with exit 2). Library code that uses goroutines
+// only where no simulated operation goes (the schema loader, say) is fine.
+//
+//go:norace
+func Unowned(site int32) {
+	if s.active {
+		unownedEvents++
+		unownedSite = site
+	}
+}
+
+var (
+	unownedEvents uint64
+	unownedSite   int32
+)
+
+//go:norace
+func UnownedEvents() (uint64, int32) { return unownedEvents, unownedSite }
+
 // AbortNow injects an abort at a point chosen by the harness (inside its
 // io.Writer): same sticky semantics as a scheduled abort.
 //
